@@ -564,8 +564,9 @@ pub proof fn lemma_ratio_final(f: Fmt, neg: bool, xn: int, xd: int, e: int, fr: 
 /// the few concrete powers of two the rational conversions need (keeps the 64 equations of lemma2_to64 out of the
 /// function bodies)
 pub proof fn lemma_pow2_consts()
-    ensures pow2(0) == 1, pow2(1) == 2, pow2(23) == 0x800000, pow2(25) == 0x2000000, pow2(52) == 0x10000000000000,
-        pow2(53) == 0x20000000000000, pow2(54) == 0x40000000000000,
+    ensures pow2(0) == 1, pow2(1) == 2, pow2(23) == 0x800000, pow2(25) == 0x2000000, pow2(27) == 0x8000000,
+        pow2(52) == 0x10000000000000, pow2(53) == 0x20000000000000, pow2(54) == 0x40000000000000,
+        pow2(56) == 0x100000000000000,
 {
     lemma2_to64();
     lemma2_to64_rest();
@@ -604,4 +605,203 @@ pub proof fn lemma_ratio_overflow(f: Fmt, neg: bool, xn: int, xd: int, e: int)
     assert(pp * g >= g) by (nonlinear_arith) requires pp >= 1, g >= 0;
     assert(pt * xd == xd * pt) by (nonlinear_arith);
     lemma_overflow_q(f, neg, xn, xd, top);
+}
+
+/// comparing x with M * 2^Q (Q <= e) is comparing (x / 2^e) * 2^(e-Q) with M
+pub proof fn lemma_cmp_rescale_down(xn: int, xd: int, e: int, M: int, Q: int)
+    requires xd > 0, Q <= e
+    ensures cmp_q(xn, xd, M, Q) == sgn3(rs_num(xn, e) * pow2((e - Q) as nat) - M * rs_den(xd, e))
+{
+    let d = (e - Q) as nat;
+    let pd = pow2(d) as int;
+    lemma_pow2_pos(d);
+    if Q >= 0 {
+        // e >= Q >= 0: 2^e = 2^d * 2^Q;  cmp = sgn(xn - M*2^Q*xd); target sgn(xn*2^d - M*xd*2^e)
+        let pq = pow2(Q as nat) as int;
+        let pe = pow2(e as nat) as int;
+        lemma_pow2_pos(Q as nat);
+        lemma_pow2_adds(d, Q as nat);
+        assert(d + Q as nat == e as nat);
+        let k = xn - M * pq * xd;
+        lemma_sgn_scale(k, pd);
+        assert(k * pd == xn * pd - M * (xd * pe)) by (nonlinear_arith) requires k == xn - M * pq * xd, pe == pd * pq;
+    } else if e >= 0 {
+        // e >= 0 > Q: cmp = sgn(xn*2^-Q - M*xd); 2^d = 2^e * 2^-Q; target sgn(xn*2^d - M*xd*2^e)
+        let pnq = pow2((-Q) as nat) as int;
+        let pe = pow2(e as nat) as int;
+        lemma_pow2_pos((-Q) as nat);
+        lemma_pow2_pos(e as nat);
+        lemma_pow2_adds(e as nat, (-Q) as nat);
+        assert(e as nat + (-Q) as nat == d);
+        let k = xn * pnq - M * xd;
+        lemma_sgn_scale(k, pe);
+        assert(k * pe == xn * pd - M * (xd * pe)) by (nonlinear_arith) requires k == xn * pnq - M * xd, pd == pe * pnq;
+    } else {
+        // 0 > e >= Q: cmp = sgn(xn*2^-Q - M*xd); 2^-Q = 2^-e * 2^d; target sgn(xn*2^-e*2^d - M*xd)
+        let pnq = pow2((-Q) as nat) as int;
+        let pne = pow2((-e) as nat) as int;
+        lemma_pow2_adds((-e) as nat, d);
+        assert((-e) as nat + d == (-Q) as nat);
+        assert(xn * pnq == xn * pne * pd) by (nonlinear_arith) requires pnq == pne * pd;
+    }
+}
+
+// ------------------------------------------------------------------------------------------------
+// single rounding through a sticky bit: x / 2^e = q + r/D (0 <= r < D), a = 2q + [r != 0], rounding a * 2^(e-1)
+
+/// lemma_q_lower for a scaled integer: a >= 2^n1 and a * 2^e1 <= M * 2^Q with M < 2^j (or < with M <= 2^j): Q + j > n1 + e1
+pub proof fn lemma_q_lower_sc(a: int, e1: int, n1: nat, M: int, j: nat, Q: int)
+    requires
+        a >= pow2(n1), M >= 0,
+        (cmp_q(sc_num(a, e1), sc_den(e1), M, Q) <= 0 && M < pow2(j)) || (cmp_q(sc_num(a, e1), sc_den(e1), M, Q) < 0 && M <= pow2(j)),
+    ensures Q + j > n1 + e1
+{
+    lemma_cmp_scaled_int(a, e1, M, Q);
+    lemma_pow2_pos(n1);
+    lemma_pow2_pos(j);
+    let pj = pow2(j) as int;
+    let pn = pow2(n1) as int;
+    if Q >= e1 {
+        let d = (Q - e1) as nat;
+        let pd = pow2(d) as int;
+        lemma_pow2_pos(d);
+        lemma_pow2_adds(j, d);
+        let b = M * pd;
+        assert(b <= pj * pd) by (nonlinear_arith) requires b == M * pd, M <= pj, pd > 0;
+        assert(M < pj ==> b < pj * pd) by (nonlinear_arith) requires b == M * pd, pd > 0;
+        assert(pow2(n1) < pow2(j + d));
+        lemma_pow2_lt_exp(n1, j + d);
+    } else {
+        let d = (e1 - Q) as nat;
+        let pd = pow2(d) as int;
+        lemma_pow2_pos(d);
+        lemma_pow2_adds(n1, d);
+        let g = a * pd;
+        assert(g >= pn * pd) by (nonlinear_arith) requires g == a * pd, a >= pn, pd > 0;
+        assert(pow2(n1 + d) < pow2(j));
+        lemma_pow2_lt_exp(n1 + d, j);
+    }
+}
+
+/// every breakpoint M * 2^Q with Q >= e separates x (x / 2^e = N/D = q + r/D) exactly as it separates (2q + sticky) * 2^(e-1)
+pub proof fn lemma_sticky_cmp_q(xn: int, xd: int, e: int, q: int, r: int, M: int, Q: int)
+    requires
+        xd > 0, rs_den(xd, e) > 0, rs_num(xn, e) == q * rs_den(xd, e) + r, 0 <= r < rs_den(xd, e), Q >= e,
+    ensures
+        cmp_q(xn, xd, M, Q) == cmp_q(sc_num(2 * q + (if r != 0 { 1int } else { 0int }), e - 1), sc_den(e - 1), M, Q)
+{
+    let n = rs_num(xn, e);
+    let d = rs_den(xd, e);
+    let s: int = if r != 0 { 1 } else { 0 };
+    let a = 2 * q + s;
+    lemma_cmp_rescale(xn, xd, e, M, Q);
+    lemma_cmp_scaled_int(a, e - 1, M, Q);
+    let g = M * pow2((Q - e) as nat);
+    lemma_pow2_succ((Q - e) as nat);
+    assert((Q - (e - 1)) as nat == (Q - e) as nat + 1);
+    assert(M * (2 * pow2((Q - e) as nat)) == 2 * g) by (nonlinear_arith) requires g == M * pow2((Q - e) as nat);
+    let gd = g * d;
+    assert(M * pow2((Q - e) as nat) * d == gd);
+    let qd = q * d;
+    // n - g*d == (q - g)*d + r
+    if q < g {
+        assert(qd <= gd - d) by (nonlinear_arith) requires qd == q * d, gd == g * d, q <= g - 1, d > 0;
+    } else if q == g {
+        assert(qd == gd);
+    } else {
+        assert(qd >= gd + d) by (nonlinear_arith) requires qd == q * d, gd == g * d, q >= g + 1, d > 0;
+    }
+}
+
+/// THE STICKY LEMMA FOR QUOTIENTS.  q >= 2^(k-1) with k >= p + 3 (at least p + 3 quotient bits), a = 2q + sticky:
+/// whatever is a correct RNE rounding (value, exactness, error sign) of a * 2^(e-1) is a correct RNE rounding of x.
+pub proof fn lemma_sticky_rne_q(f: Fmt, neg: bool, xn: int, xd: int, e: int, q: int, r: int, k: nat, fr: Fields, exact: bool, ep: bool)
+    requires
+        xd > 0, xn > 0, rs_den(xd, e) > 0, rs_num(xn, e) == q * rs_den(xd, e) + r, 0 <= r < rs_den(xd, e),
+        k >= f.p + 3, q >= pow2((k - 1) as nat),
+        fields_wf(f, fr),
+        rne_ok(f, neg, sc_num(2 * q + (if r != 0 { 1int } else { 0int }), e - 1), sc_den(e - 1), fr, exact, ep),
+    ensures
+        rne_ok(f, neg, xn, xd, fr, exact, ep)
+{
+    let s: int = if r != 0 { 1 } else { 0 };
+    let a = 2 * q + s;
+    let P = pow2(f.p) as int;
+    let yn = sc_num(a, e - 1);
+    let yd = sc_den(e - 1);
+    lemma_pow2_pos((k - 1) as nat);
+    lemma_pow2_succ((k - 1) as nat);
+    assert((k - 1) as nat + 1 == k);
+    assert(a >= pow2(k));
+    lemma_pow2_pos(f.p);
+    lemma_pow2_succ(f.p);
+    lemma_pow2_succ(f.p + 1);
+    if e - 1 >= 0 { lemma_pow2_pos((e - 1) as nat); } else { lemma_pow2_pos((-(e - 1)) as nat); }
+    assert(yn != 0) by {
+        if e - 1 >= 0 {
+            let pe = pow2((e - 1) as nat) as int;
+            assert(a * pe > 0) by (nonlinear_arith) requires a > 0, pe > 0;
+        }
+    }
+    let q_top = f.emaxb - 1 - f.bias - f.p;
+    if fr.sbit != neg {
+    } else if fr.eb == f.emaxb {
+        if q_top - 1 >= e {
+            lemma_sticky_cmp_q(xn, xd, e, q, r, 4 * P - 1, q_top - 1);
+        } else {
+            // the overflow threshold lies below 2^e: x >= q * 2^e >= 2^(p+2) * 2^e is above it
+            lemma_cmp_rescale_down(xn, xd, e, 4 * P - 1, q_top - 1);
+            let n = rs_num(xn, e);
+            let d = rs_den(xd, e);
+            let u = pow2((e - (q_top - 1)) as nat) as int;
+            lemma_pow2_mono(1, (e - (q_top - 1)) as nat);
+            lemma2_to64();
+            lemma_pow2_mono(f.p + 2, (k - 1) as nat);
+            let qd = q * d;
+            assert(qd >= (4 * P) * d) by (nonlinear_arith) requires qd == q * d, q >= 4 * P, d > 0;
+            assert(n * u >= 2 * n) by (nonlinear_arith) requires u >= 2, n >= 0;
+            assert((4 * P - 1) * d <= (4 * P) * d) by (nonlinear_arith) requires d > 0;
+        }
+    } else {
+        let m = if fr.eb == 0 { fr.frac } else { fr.frac + P };
+        let qf = (if fr.eb == 0 { 1 } else { fr.eb }) - f.bias - f.p;
+        let c2 = cmp_q(yn, yd, m, qf);
+        assert(0 <= m < 2 * P);
+        if c2 <= 0 {
+            lemma_q_lower_sc(a, e - 1, k, m, f.p + 1, qf);
+        } else {
+            let t2 = cmp_q(yn, yd, 2 * m + 1, qf - 1);
+            assert(t2 <= 0);
+            lemma_q_lower_sc(a, e - 1, k, 2 * m + 1, f.p + 2, qf - 1);
+        }
+        assert(qf >= e + 1);
+        lemma_sticky_cmp_q(xn, xd, e, q, r, m, qf);
+        lemma_sticky_cmp_q(xn, xd, e, q, r, 2 * m + 1, qf - 1);
+        if c2 < 0 {
+            assert(m >= 1) by {
+                if m == 0 {
+                    lemma_cmp_scaled_int(a, e - 1, 0, qf);
+                    assert(0 * pow2((qf - (e - 1)) as nat) == 0) by (nonlinear_arith);
+                }
+            }
+            lemma_sticky_cmp_q(xn, xd, e, q, r, 2 * m - 1, qf - 1);
+            if fr.eb > 1 && fr.frac == 0 {
+                lemma_q_lower_sc(a, e - 1, k, m, f.p, qf);
+                assert(qf >= e + 2);
+                lemma_sticky_cmp_q(xn, xd, e, q, r, 4 * m - 1, qf - 2);
+            }
+        }
+    }
+}
+/// floor quotient bounds: c * D <= N < 2^k * D  ==>  c <= N / D < 2^k
+pub proof fn lemma_quot_range(n: int, d: int, c: int, k: nat)
+    requires d > 0, c >= 0, c * d <= n, n < pow2(k) * d
+    ensures c <= n / d < pow2(k), n == (n / d) * d + n % d, 0 <= n % d < d
+{
+    assert(c * d >= 0) by (nonlinear_arith) requires c >= 0, d > 0;
+    lemma_quot_fits(n, d, k);
+    let q = n / d;
+    let qd = q * d;
+    let cd = c * d;
+    assert(q >= c) by (nonlinear_arith) requires qd == q * d, cd == c * d, cd <= n, n < qd + d, d > 0;
 }
